@@ -151,8 +151,12 @@ pub fn term_of(lex: &str) -> &'static str {
             "!getdagop" => "GETDAGOP",
             _ => "BANG",
         },
-        _ if lex.starts_with("0b") => "BINT",
-        _ if c.is_ascii_digit() || ((c == '-' || c == '+') && lex.len() > 1) => "INT",
+        // numbers as the server's own lexer reads them (a digit-leading word such as `4x` is an identifier)
+        _ if c.is_ascii_digit() || ((c == '-' || c == '+') && lex.len() > 1) => match super::c14::impl_lex(lex).0.first().map(|t| t.0) {
+            Some(syntax::token_kind::TokenKind::BinaryIntVal) => "BINT",
+            Some(syntax::token_kind::TokenKind::Id) => "ID",
+            _ => "INT",
+        },
         _ => "ID",
     }
 }
